@@ -83,7 +83,11 @@ def first_bytes(cls, ser, rng):
              "type_unknown": rng.choice([7, 77, 255])}
     if cls in types:
         # a message of another type, carrying either a call or a perfectly valid handshake payload
-        return L.patch(inv if rng.random() < 0.5 else valid, 6, "!B", types[cls])
+        data = L.patch(inv if rng.random() < 0.5 else valid, 6, "!B", types[cls])
+        if rng.random() < 0.35:
+            # ... written with a serializer the daemon does not have (the library's own ping message names number 42)
+            data = L.patch(data, 7, "!B", rng.choice([42, 0, 99, 255]))
+        return data
     if cls == "stalled_partial":
         return valid[:rng.choice([1, 5, 7, 20, 39, 41, len(valid) - 1])]
     if cls == "type_partial":
